@@ -20,6 +20,7 @@ func init() {
 			"checkInitialAccount returns nil only past the smart-contract-address test on the decoded address and the comparison of Supply with the sum built from Balance, StakingValue and Delegation.Value. " +
 			"(S2) the duplicate test compares a canonical key: its operands derive from the decoded address bytes (AddressBytes) or from a case normalisation, not from the raw textual field - " +
 			"bech32 text is accepted in both letter cases, so a textual comparison lets the same account appear twice. " +
+			"The supply test at every nil return of checkInitialAccount compares Supply with a zero-initialised object to which exactly Balance, StakingValue and Delegation.Value were added in place before the comparison. " +
 			"Not decided (value-level): big-int arithmetic, delegation/staking cross checks.",
 		Run: runC47,
 	})
@@ -89,44 +90,118 @@ func runC47(c *core.Ctx) {
 		c.Check(okTotal, "C47/process-passes-all-checks", "accountsParser.process/total-supply", fn.Pos(), "nil only when the running total equals the entire supply (Cmp == 0)", "nil is returned without the total having been compared with the entire supply")
 	}
 	if fn := anchorM(c, pkg, "accountsParser", "checkInitialAccount"); fn != nil {
-		sc, sum := false, false
+		sc, sum := true, true
 		n := 0
+		isBig := func(v ssa.Value, name string) *ssa.Call {
+			call, ok := v.(*ssa.Call)
+			if !ok || !core.CallDesc(&call.Call).Is("math/big", "Int", name) {
+				return nil
+			}
+			return call
+		}
+		// sumOfParts(v): v is a zero-initialised big.Int to which exactly Balance, StakingValue and
+		// Delegation.Value of the entry are added (in place) before `at`
+		// obj: the big.Int object a value denotes (in-place operations return their receiver)
+		var obj func(v ssa.Value) ssa.Value
+		obj = func(v ssa.Value) ssa.Value {
+			if call, ok := v.(*ssa.Call); ok && core.CallDesc(&call.Call).Is("math/big", "Int", "") && len(call.Call.Args) > 0 {
+				switch core.CallDesc(&call.Call).Name {
+				case "Add", "Sub", "Mul", "Set", "SetUint64", "SetInt64", "Div", "Quo", "Neg", "Abs":
+					return obj(call.Call.Args[0])
+				}
+			}
+			return v
+		}
+		sumOfParts := func(v ssa.Value, at *ssa.BasicBlock) bool {
+			v = obj(v)
+			mk, ok := v.(*ssa.Call)
+			if !ok || !core.CallDesc(&mk.Call).Is("math/big", "", "NewInt") {
+				return false
+			}
+			if z, isC := core.ConstInt(mk.Call.Args[0]); !isC || z != 0 {
+				return false
+			}
+			want := map[string]int{".Balance": 0, ".StakingValue": 0, ".Delegation.Value": 0}
+			okAll := true
+			core.Instrs(fn, func(in ssa.Instruction) {
+				iv, isV := in.(ssa.Value)
+				if !isV {
+					return
+				}
+				// any in-place operation on v other than Add / readers spoils the sum
+				if call, isCall := iv.(*ssa.Call); isCall && len(call.Call.Args) > 0 && core.CallDesc(&call.Call).Is("math/big", "Int", "") && obj(call.Call.Args[0]) == v {
+					nm := core.CallDesc(&call.Call).Name
+					if nm != "Add" && nm != "Cmp" && nm != "String" && nm != "Sign" {
+						okAll = false
+					}
+				}
+				add := isBig(iv, "Add")
+				if add == nil || obj(add.Call.Args[0]) != v {
+					return
+				}
+				if !add.Block().Dominates(at) {
+					okAll = false
+				}
+				for _, a := range add.Call.Args[1:] {
+					if obj(a) == v {
+						continue
+					}
+					ak, hit := core.ExprKey(a), false
+					for suf := range want {
+						if strings.HasSuffix(ak, suf) {
+							want[suf]++
+							hit = true
+						}
+					}
+					if !hit {
+						okAll = false
+					}
+				}
+			})
+			for _, k := range want {
+				if k != 1 {
+					okAll = false
+				}
+			}
+			return okAll
+		}
 		for _, r := range core.Returns(fn) {
 			if !core.NilReturn(r, nil) {
 				continue
 			}
 			n++
-			sc, sum = false, false
+			scHere, sumHere := false, false
 			for _, cd := range core.CondsAt(r.Block()) {
 				f := core.FactOf(cd)
 				if f.Op == "T" && strings.Contains(f.A, "IsSmartContractAddress(") && strings.HasPrefix(f.A, "!") && strings.Contains(f.A, "AddressBytes") {
-					sc = true
+					scHere = true
+				}
+				if !cd.Taken {
+					continue
 				}
 				// isSupplyCorrect := 0 < Supply && Supply.Cmp(sum) == 0   (conjunction)
 				for _, cj := range core.Conjuncts(cd.V) {
-					if !cd.Taken {
+					bo, isBo := cj.(*ssa.BinOp)
+					if !isBo || bo.Op != token.EQL {
 						continue
 					}
-					k := core.ExprKey(cj)
-					if strings.Contains(k, ".Supply") && strings.Contains(k, "Cmp(") && strings.Contains(k, "== 0") || strings.Contains(k, "0 ==") && strings.Contains(k, ".Supply") {
-						// the compared sum is built from the three parts
-						parts := 0
-						core.Instrs(fn, func(in ssa.Instruction) {
-							if cc := core.CallOf(in); cc != nil && core.CallDesc(cc).Is("math/big", "Int", "Add") {
-								for _, a := range cc.Args {
-									ak := core.ExprKey(a)
-									if strings.HasSuffix(ak, ".Balance") || strings.HasSuffix(ak, ".StakingValue") || strings.HasSuffix(ak, ".Delegation.Value") {
-										parts++
-									}
-								}
-							}
-						})
-						if parts >= 3 {
-							sum = true
-						}
+					cmp, k := isBig(bo.X, "Cmp"), bo.Y
+					if cmp == nil {
+						cmp, k = isBig(bo.Y, "Cmp"), bo.X
+					}
+					if z, isC := core.ConstInt(k); cmp == nil || !isC || z != 0 {
+						continue
+					}
+					a, b := cmp.Call.Args[0], cmp.Call.Args[1]
+					if strings.HasSuffix(core.ExprKey(b), ".Supply") {
+						a, b = b, a
+					}
+					if strings.HasSuffix(core.ExprKey(a), ".Supply") && sumOfParts(b, cmp.Block()) {
+						sumHere = true
 					}
 				}
 			}
+			sc, sum = sc && scHere, sum && sumHere
 		}
 		c.Check(sc && n > 0, "C47/entry-checks", "checkInitialAccount/not-a-contract-address", fn.Pos(), "nil only past the smart-contract-address test on the decoded address", "an entry can be accepted without the smart-contract-address test on its decoded bytes")
 		c.Check(sum && n > 0, "C47/entry-checks", "checkInitialAccount/supply-equals-parts", fn.Pos(), "nil only when Supply == Balance + StakingValue + Delegation.Value", "an entry can be accepted without Supply having been compared with the sum of balance, staked and delegated value")
